@@ -764,9 +764,17 @@ class ExpectationPropagation:
         # Normalise posteriors so that empirical mutation rate is constant
         likelihoods = self.edge_likelihoods if rescale_segsites \
             else self.sizebiased_likelihoods  # fmt: skip
+        # `mutation_phase` is the probability of the edge that each singleton is
+        # currently mapped to, but `reallocate_unphased` expects the probability
+        # of the first edge in the block
+        mutations_phase = self.mutation_phase.copy()
+        singletons = np.flatnonzero(self.mutation_blocks != tskit.NULL)
+        first_edge = self.block_edges[self.mutation_blocks[singletons], 0]
+        flipped = singletons[self.mutation_edges[singletons] != first_edge]
+        mutations_phase[flipped] = 1 - mutations_phase[flipped]
         reallocate_unphased(  # correct mutation counts for unphased singletons
             likelihoods,
-            self.mutation_phase,
+            mutations_phase,
             self.mutation_blocks,
             self.block_edges,
         )
